@@ -453,7 +453,7 @@ package scipipe
 //@   ensures every-output-carries-the-record[C10]: exists a *AuditInfo :: recordOf(t, a, startTime, finishTime) && outFilesRecorded(t, a) && (forall o string :: o in t.OutIPs ==> t.OutIPs[o].auditInfo == a)
 //@   ensures upstream-records-linked-by-path[C10,C11]: old(inputsDistinct(t)) ==> exists a *AuditInfo :: recordOf(t, a, startTime, finishTime) && (forall o string :: o in t.OutIPs ==> t.OutIPs[o].auditInfo == a) && ((exists o string :: o in t.OutIPs) ==> upstreamLinked(t, a))
 //@   ensures audit-file-written-for-every-output[C10]: forall o string :: o in t.OutIPs ==> effCreated[t.OutIPs[o].path + ".audit.json"]
-//@   atcall (*FileIP).AddTags every-inputs-tags-are-merged-into-the-tasks-record[C10]: $arg0 == oip && oip.auditInfo == auditInfo && iip != nil && iip.auditInfo != nil && $arg1 == iip.auditInfo.Tags
+//@   atcall (*FileIP).AddTags every-inputs-tags-are-merged-into-the-tasks-record[C10]: $arg0 == oip && $arg1 == iip.auditInfo.Tags && iip.auditInfo != nil && (old(inputsDistinct(t)) ==> oip.auditInfo == auditInfo)
 //@   loop 0 invariant rec: recordOf(t, auditInfo, startTime, finishTime) && freshRecord(auditInfo)
 //@   loop 0 invariant distinct: old(inputsDistinct(t)) ==> inputsDistinct(t)
 //@   loop 0 invariant vis: forall i string :: $visited[i] ==> i in t.InIPs
